@@ -16,13 +16,15 @@ import (
 const (
 	mtImage  = "application/vnd.oci.image.manifest.v1+json"
 	mtIndex  = "application/vnd.oci.image.index.v1+json"
-	mtOther1 = "application/vnd.verif.opaque.v1+json"
+	mtOther1 = "application/vnd.Verif.Opaque.v1+json; version=1.4" // parameter and upper case: has to be relayed verbatim
 	mtOther2 = "application/json"
 	mtOctet  = "application/octet-stream"
+	// a media type with a parameter and upper-case letters: has to be relayed verbatim
+	mtOther3 = "application/vnd.Verif.Param+json; version=1.4"
 )
 
 var mtConcrete = map[string]string{
-	"image": mtImage, "index": mtIndex, "other": mtOther1, "other2": mtOther2, "octet": mtOctet,
+	"image": mtImage, "index": mtIndex, "other": mtOther1, "other2": mtOther2, "other3": mtOther3, "octet": mtOctet,
 }
 
 func mtAbstract(s string) string {
